@@ -461,6 +461,85 @@ outer:
 	}
 }
 
+// ruleSeqLineAccept (part of GEOM-ACCEPT): NewIndex's handling of a sequence
+// line, evaluated over every line shape a well-formed file can present – it
+// must go on to the next line, never return an error. Added after a
+// second-round seed (a "terminator consistency" test that also fires for a
+// full-width last line without final newline) was missed.
+func ruleSeqLineAccept(c *Ctx, r *Rep, tier string) {
+	rule := "GEOM-ACCEPT"
+	fn := c.Func("fai", "NewIndex")
+	var scan *ssa.Call
+	allInstrs(fn, func(ins ssa.Instruction) {
+		if call, ok := ins.(*ssa.Call); ok {
+			if g := staticCallee(&call.Call); g != nil && g.Name() == "Scan" && g.Pkg != nil && g.Pkg.Pkg.Path() == "bufio" {
+				scan = call
+			}
+		}
+	})
+	if scan == nil {
+		unresolved("fai.NewIndex: no Scan")
+	}
+	// the test "b[0] == '>'": its false successor starts the sequence-line branch
+	var seqStart *ssa.BasicBlock
+	for _, b := range fn.Blocks {
+		iff := ifOf(b)
+		if iff == nil {
+			continue
+		}
+		if bo, ok := iff.Cond.(*ssa.BinOp); ok && bo.Op == token.EQL {
+			if k, isK := constInt(bo.Y); isK && k == '>' {
+				seqStart = b.Succs[1]
+			}
+		}
+	}
+	if seqStart == nil {
+		unresolved("fai.NewIndex: header-line test not found")
+	}
+	sc := symKey(scan.Call.Args[0])
+	raw, trimmed := "len("+sc+".Bytes())", "len(TrimSpace("+sc+".Bytes()))"
+	r.Instance(rule, 1)
+	why := ""
+	n := 0
+	try := func(B, Y, lb, rawLen int64, what string) {
+		n++
+		env := map[string]int64{raw: rawLen, trimmed: lb, "rec.BytesPerLine": Y, "rec.BasesPerLine": B, "phi:wantDescLine": 0}
+		sr := symExecAt(fn, Loc{seqStart, -1}, func(i ssa.Instruction) bool { return i == ssa.Instruction(scan) }, env)
+		switch {
+		case sr.Undec != "" && sr.Undec != "panic":
+			if len(why) < 300 {
+				why += " the handling of a sequence line depends on " + sr.Undec + ";"
+			}
+		case sr.Stopped == nil:
+			if len(why) < 300 {
+				why += fmt.Sprintf(" %s (line of %d bases in %d bytes, record so far %d bases per line in %d bytes) is refused;", what, lb, rawLen, B, Y)
+			}
+		}
+	}
+	for _, W := range []int64{1, 2, 3} {
+		for _, T := range []int64{1, 2} {
+			// first sequence line of a record
+			for _, t := range []int64{T, 0} {
+				try(0, 0, W, W+t, "a first sequence line")
+			}
+			// later lines: full or short, terminated like the first or (last line of the file) not at all
+			for lb := int64(1); lb <= W; lb++ {
+				for _, t := range []int64{T, 0} {
+					what := "a full-width line"
+					if lb < W {
+						what = "a short last line"
+					}
+					if t == 0 {
+						what += " at the end of a file without final newline"
+					}
+					try(W, W+T, lb, lb+t, what)
+				}
+			}
+		}
+	}
+	r.Check(why == "", rule, "fai.NewIndex#sequence-line-shapes", c.Pos(seqStart.Instrs[0].Pos()), fmt.Sprintf("%d well-formed line shapes (widths 1–3, LF/CRLF, last line with and without terminator) all accepted", n), "NewIndex returns an error for a well-formed file:"+why)
+}
+
 // ---- POS-FORMULA ---------------------------------------------------------------------------------
 
 // retsByGuard: the returns of fn, with the guard "BasesPerLine <= 0" edge they sit under (or not).
@@ -928,7 +1007,7 @@ func init() {
 		Rules: []RuleDef{
 			{Name: "COL-FAI", What: "WriteTo's columns and ReadFrom's columns are the same fields in the same order and base; csv configuration; quoting", Floor: 8, Run: ruleColFai},
 			{Name: "CUR-FAI", What: "NewIndex: every way round the scan loop adds the raw line length to offset once; Start/BytesPerLine use raw lengths, BasesPerLine/Length trimmed lengths; one assignment per line", Floor: 7, Run: ruleCurFai},
-			{Name: "GEOM-ACCEPT", What: "ReadFrom's acceptance test, over every ordering of the four numeric columns: accepts all geometries NewIndex produces, rejects those Seq.Read cannot survive", Floor: 2, Run: ruleGeomAccept},
+			{Name: "GEOM-ACCEPT", What: "ReadFrom's acceptance test, over every ordering of the four numeric columns: accepts all geometries NewIndex produces, rejects those Seq.Read cannot survive; NewIndex accepts every well-formed sequence-line shape", Floor: 3, Run: func(c *Ctx, r *Rep, tier string) { ruleGeomAccept(c, r, tier); ruleSeqLineAccept(c, r, tier) }},
 			{Name: "POS-FORMULA", What: "position / endOfLineOffset equal the layout formulas (polynomial normal form); Position's range check", Floor: 3, Run: rulePosFormula},
 			{Name: "READ-BOUND", What: "Seq.Read: ReadAt count bounded by line rest, range end and buffer on every path; offset = position(cur); cursor/total/buffer advance by the returned count; io.EOF only at cur >= end", Floor: 5, Run: ruleReadBound},
 			{Name: "RANGE-GUARD", What: "SeqRange succeeds iff 0 <= start <= end <= Length (all orderings) and builds the handle from its arguments; Seq covers [0, Length)", Floor: 2, Run: ruleRangeGuard},
